@@ -17,7 +17,7 @@ On break: harness `oracle` states the property's clauses directly on the real in
 """
 import os
 
-THEOREMS = ["IstioModel.C13.Theorems", "IstioModel.C13.ConcTheorems", "IstioModel.C13.ClaTheorems", "IstioModel.C13.EndToEnd"]
+THEOREMS = ["IstioModel.C13.Theorems", "IstioModel.C13.ConcTheorems", "IstioModel.C13.ClaTheorems", "IstioModel.C13.NetTheorems", "IstioModel.C13.EndToEnd"]
 STREAMS = ("index", "sched", "cla")
 
 
